@@ -84,7 +84,7 @@ fn answer(k: &str, seg: &str, threads: &str, cs: &str) -> String {
         return "HARNESS-ERROR empty contig cannot be written as a FASTA record".into();
     }
     // one scratch directory per process (the files are rewritten for every case), one rayon pool per thread count
-    let dir = DIR.get_or_init(|| tempfile::tempdir().expect("tempdir"));
+    let dir = DIR.get_or_init(|| tempfile::tempdir_in("/dev/shm").or_else(|_| tempfile::tempdir()).expect("tempdir"));
     let refp = dir.path().join("ref.fa");
     let panp = dir.path().join("pansn.fa");
     let mut a = Vec::new();
